@@ -1109,7 +1109,7 @@ def body(ctx):
             vector_case(spec, resolve(seq), f"exhaustive{si + 1}")
 
     # ---- (ii) random vectors x random sequences
-    for _ in range(ctx.scale(500, 3500)):
+    for _ in range(ctx.scale(500, 3000)):
         spec = gen_spec(rng)
         ops, n = [], 1
         for _ in range(rng.choice([3, 10, 40, 40])):
@@ -1125,7 +1125,7 @@ def body(ctx):
         vector_case(spec, [("rs", 0), ("cl", 0)], "malformed")
 
     # ---- (iv) transforms
-    ninter = ctx.scale(40, 1500)
+    ninter = ctx.scale(40, 1200)
     for clsname in transform.__all__:
         if clsname not in TCTOR:
             ctx.disagree("transform class not known to the harness", {"class": clsname})
